@@ -148,6 +148,16 @@ class CParser:
         # An identifier read ahead was classified while the scope was open.
         self._tokens.reclassify_lookahead(self._is_type_in_scope)
 
+    def _merge_brace_scope(self) -> None:
+        """Called right after the '{' of a struct, union or enum body or of an
+        initializer list has been consumed. The lexer pushes a scope for every
+        '{', but these braces are not a scope (C99 6.2.1p4): an enumerator
+        declared between them belongs to the enclosing scope. The entry on the
+        stack becomes an alias of the enclosing scope; the '}' pops the alias.
+        """
+        if len(self._scope_stack) > 1 and not self._tokens.has_lookahead():
+            self._scope_stack[-1] = self._scope_stack[-2]
+
     def _add_typedef_name(self, name: str, coord: Optional[Coord]) -> None:
         """Add a new typedef name (ie a TYPEID) to the current scope"""
         if not self._scope_stack[-1].get(name, True):
@@ -1158,6 +1168,7 @@ class CParser:
             name_tok = self._advance()
             if self._peek_type() == "LBRACE":
                 self._advance()
+                self._merge_brace_scope()
                 if self._accept("RBRACE"):
                     return klass(
                         name=name_tok.value, decls=[], coord=self._tok_coord(name_tok)
@@ -1174,6 +1185,7 @@ class CParser:
 
         if self._peek_type() == "LBRACE":
             brace_tok = self._advance()
+            self._merge_brace_scope()
             if self._accept("RBRACE"):
                 return klass(name=None, decls=[], coord=self._tok_coord(brace_tok))
             decls = self._parse_struct_declaration_list()
@@ -1269,12 +1281,14 @@ class CParser:
             name_tok = self._advance()
             if self._peek_type() == "LBRACE":
                 self._advance()
+                self._merge_brace_scope()
                 enums = self._parse_enumerator_list()
                 self._expect("RBRACE")
                 return c_ast.Enum(name_tok.value, enums, self._tok_coord(tok))
             return c_ast.Enum(name_tok.value, None, self._tok_coord(tok))
 
         self._expect("LBRACE")
+        self._merge_brace_scope()
         enums = self._parse_enumerator_list()
         self._expect("RBRACE")
         return c_ast.Enum(None, enums, self._tok_coord(tok))
@@ -2010,6 +2024,7 @@ class CParser:
         """Parse '{' initializer_list ','? '}' after an already parsed
         '(' type_name ')' and return the CompoundLiteral."""
         self._expect("LBRACE")
+        self._merge_brace_scope()
         init = self._parse_initializer_list()
         self._accept("COMMA")
         self._expect("RBRACE")
@@ -2215,6 +2230,7 @@ class CParser:
     def _parse_initializer(self) -> c_ast.Node:
         lbrace_tok = self._accept("LBRACE")
         if lbrace_tok:
+            self._merge_brace_scope()
             if self._accept("RBRACE"):
                 return c_ast.InitList([], self._tok_coord(lbrace_tok))
             init_list = self._parse_initializer_list()
@@ -2492,6 +2508,10 @@ class _TokenStream:
 
     def reset(self, mark: int) -> None:
         self._index = mark
+
+    def has_lookahead(self) -> bool:
+        """True if a token beyond the consumed ones has been read already."""
+        return len(self._buffer) > self._index
 
     def reclassify_lookahead(self, is_type: Callable[[str], bool]) -> None:
         """Decides again whether the identifiers that have been read but not
